@@ -3,6 +3,8 @@ C01 property theorems.  Only statements of the property + non-vacuity examples l
 helper lemmas are in Lemmas.lean / ChainLemmas.lean.
 -/
 import BV.C01.Lemmas
+import BV.C01.Loops
+import BV.C01.ChainUnique
 import BV.Generated.C01
 import BV.C09.Model
 namespace BV.C01
@@ -84,6 +86,30 @@ theorem verdict_depends_only_on_ancestors (hD : ContextFree D) (bs₁ bs₂ : Li
   rw [← ha, ← hb] at v₂
   cases hv1 : n₁.valid <;> cases hf1 : n₁.failed <;> cases hv2 : n₂.valid <;> cases hf2 : n₂.failed <;>
     simp_all
+
+/-- The ancestor path itself is a function of the block: if block hashes are collision free over everything
+    delivered in two arbitrary histories, both record the same ancestors for the same block. -/
+theorem anc_depends_only_on_block (O : Oracle β) (bs₁ bs₂ : List (Blk β))
+    (hinj : ∀ a ∈ g :: (bs₁ ++ bs₂), ∀ b ∈ g :: (bs₁ ++ bs₂), a.hash = b.hash → a = b)
+    (n₁ n₂ : Node β) (h₁ : n₁ ∈ (run O g bs₁).nodes) (h₂ : n₂ ∈ (run O g bs₂).nodes)
+    (hb : n₁.blk = n₂.blk) : n₁.anc = n₂.anc := by
+  have w₁ := run_within O g bs₁ (g :: (bs₁ ++ bs₂)) List.mem_cons_self
+    (fun b hb => List.mem_cons_of_mem _ (List.mem_append_left _ hb))
+  have w₂ := run_within O g bs₂ (g :: (bs₁ ++ bs₂)) List.mem_cons_self
+    (fun b hb => List.mem_cons_of_mem _ (List.mem_append_right _ hb))
+  exact (anc_unique O g _ hinj (run_inv O g bs₁) (run_inv O g bs₂) w₁ w₂ n₁.anc n₁ n₂ h₁ h₂ rfl hb).symm
+
+/-- Hence the verdict depends only on the block (hash collisions aside): unrelated blocks, orphans, forks and
+    the arrival order — everything in which the two histories may differ — cannot change it. -/
+theorem verdict_depends_only_on_block (hD : ContextFree D) (bs₁ bs₂ : List (Blk β))
+    (hinj : ∀ a ∈ g :: (bs₁ ++ bs₂), ∀ b ∈ g :: (bs₁ ++ bs₂), a.hash = b.hash → a = b)
+    (n₁ n₂ : Node β) (h₁ : n₁ ∈ (run (oracleOf D) g bs₁).nodes) (h₂ : n₂ ∈ (run (oracleOf D) g bs₂).nodes)
+    (hb : n₁.blk = n₂.blk) (hne : n₁.anc ≠ [])
+    (c₁ : (n₁.valid || n₁.failed) = true) (c₂ : (n₂.valid || n₂.failed) = true) :
+    n₁.valid = n₂.valid ∧ n₁.failed = n₂.failed ∧
+      (n₁.valid = true ↔ validBlock (D n₁.anc n₁.blk) = .ok ()) :=
+  verdict_depends_only_on_ancestors D g hD bs₁ bs₂ n₁ n₂ h₁ h₂ hb
+    (anc_depends_only_on_block g (oracleOf D) bs₁ bs₂ hinj n₁ n₂ h₁ h₂ hb) hne c₁ c₂
 
 /-- The reorganisation path applies the same check as the tip-extension path: whichever of the two validated a
     node, its flags are the value of the connect-stage oracle on the node's own ancestors (and never both). -/
@@ -351,6 +377,33 @@ theorem subsidy_is_c09 (height interval : Int) :
         rw [Int.natCast_ediv]
         rfl
 
+
+/-! ### btcd's accumulating loops (int64 wrap-around, early exit) decide the declarative rules -/
+
+/-- `last := acc; acc += x; if acc < last || acc > limit {err}` over non-negative int64 summands decides
+    exactly "the total does not exceed the limit" (the overflow guard never lets a wrapped total through). -/
+theorem go_acc_loop_exact (limit : Int) (hl : limit < 2 ^ 63) (xs : List Int) (acc : Int)
+    (h0 : 0 ≤ acc) (h1 : acc ≤ limit) (hx : ∀ x ∈ xs, 0 ≤ x ∧ x < 2 ^ 63) :
+    Loops.accLoop limit xs acc = decide (acc + sumInt xs ≤ limit) :=
+  Loops.accLoop_eq limit hl xs acc h0 h1 hx
+
+/-- the output loop of `CheckTransactionSanity` is the per-transaction clause of rule `outValue` -/
+theorem go_output_loop_is_rule (t : TxFacts) :
+    Loops.goOutputs t.outs 0 = (t.outs.all moneyRange && moneyRange t.outSum) :=
+  Loops.outputs_loop_is_rule t
+
+/-- the sigop accumulators of `checkBlockSanity` / `checkConnectBlock` are the rule `total ≤ 80000` -/
+theorem go_sigop_loop_is_rule (costs : List Int) (h : ∀ c ∈ costs, 0 ≤ c ∧ c < 2 ^ 63) :
+    Loops.goSigops costs = decide (sumInt costs ≤ MAX_BLOCK_SIGOPS_COST) :=
+  Loops.sigops_loop_is_rule costs h
+
+/-- the fee accumulator of `checkConnectBlock` (guard `totalFees < lastTotalFees`) is rule `feeRange` -/
+theorem go_fee_loop_is_rule (fees : List Int) (h : ∀ f ∈ fees, 0 ≤ f ∧ f < 2 ^ 63) :
+    Loops.goFees fees = decide (sumInt fees ≤ INT64_MAX) :=
+  Loops.fees_loop_is_rule fees h
+
+example : Loops.goOutputs [2100000000000000] 0 = true ∧ Loops.goOutputs [2100000000000000, 1] 0 = false ∧
+    Loops.goOutputs [-1] 0 = false := by decide
 
 /-! ### non-vacuity -/
 
